@@ -173,6 +173,10 @@ static int _vds_shared_init(vorbis_dsp_state *v,vorbis_info *vi,int encp){
   private_state *b=NULL;
   int hs;
 
+  /* the callers clear v when this fails: it must be in a defined state
+     before any error return */
+  memset(v,0,sizeof(*v));
+
   if(ci==NULL||
      ci->modes<=0||
      ci->blocksizes[0]<64||
@@ -181,7 +185,6 @@ static int _vds_shared_init(vorbis_dsp_state *v,vorbis_info *vi,int encp){
   }
   hs=ci->halfrate_flag;
 
-  memset(v,0,sizeof(*v));
   b=v->backend_state=_ogg_calloc(1,sizeof(*b));
 
   v->vi=vi;
